@@ -1084,6 +1084,94 @@ def rule_bounds(chk):
                                   '(index = number of cells) for round geometries' % v, detail_ok='%s widened by %s' % (v, compact(wid[0].value) if wid else ''))
 
 
+def rule_bins_all(chk):
+    """NNPS.update hands every particle of every array to _bin - real, remote and ghost alike (mirror ghosts exist without the domain being
+    periodic); shared with C05: algorithms that build their structure from the whole array must agree with those that bin index lists"""
+    t = M.cy(NB)
+    up = M.find_func(M.find_class(t, 'NNPS'), 'update')
+    M.set_parents(up)
+    bc = [c for c in M.calls(up) if M.call_name(c) == 'self._bin']
+    if not bc:
+        raise AnalysisError('NNPS.update no longer calls self._bin')
+    defs = {}
+    for a in ast.walk(up):
+        if isinstance(a, ast.Assign) and len(a.targets) == 1 and isinstance(a.targets[0], ast.Name):
+            defs.setdefault(a.targets[0].id, []).append(a.value)
+        elif isinstance(a, ast.AnnAssign) and isinstance(a.target, ast.Name) and a.value is not None:
+            defs.setdefault(a.target.id, []).append(a.value)
+
+    def resolve(e, depth=0):
+        while isinstance(e, ast.Name) and len(defs.get(e.id, [])) == 1 and depth < 5:
+            e = defs[e.id][0]
+            depth += 1
+        return e
+    for c in bc:
+        kw = dict((k.arg, k.value) for k in c.keywords)
+        idx = kw.get('indices', c.args[1] if len(c.args) > 1 else None)
+        idx = resolve(idx) if idx is not None else None
+        ok = False
+        why = 'the index list is `%s`' % (compact(idx) if idx is not None else None)
+        if isinstance(idx, ast.Call) and M.call_name(idx) == 'arange_uint' and len(idx.args) == 1:
+            n = resolve(idx.args[0])
+            if isinstance(n, ast.Call) and (M.call_name(n) or '').endswith('.get_number_of_particles'):
+                a0 = n.args[0] if n.args else next((k.value for k in n.keywords if k.arg == 'real'), None)
+                ok = a0 is None or (isinstance(a0, ast.Constant) and not a0.value)
+                why = 'the number of particles binned is `%s`' % compact(n)
+        chk.decide(ok, 'results-not-stale', 'update:bins-every-particle', node=c, file=NB, func='NNPS.update',
+                   detail_bad='%s: every particle of the array (real, remote and ghost - mirror ghosts exist in non-periodic domains) must be binned, i.e. '
+                              'arange_uint(pa.get_number_of_particles())' % why, detail_ok='arange_uint(pa.get_number_of_particles()): all particles')
+
+
+def rule_valid_cell(chk):
+    """get_valid_cell_index (nnps_base.pxd, used by the linked-list search): a cell is valid only when each of its three indices lies in
+    [0, number of cells on that axis) - the range test on the flattened index alone lets an x index one past the end alias into the next row"""
+    from verif_static import norm as N
+    rel = 'pysph/base/nnps_base.pxd'
+    t = M.cy(rel)
+    fn = [f for f in ast.walk(t) if isinstance(f, ast.FunctionDef) and f.name == 'get_valid_cell_index']
+    if not fn:
+        raise AnalysisError('get_valid_cell_index vanished from nnps_base.pxd')
+    fn = fn[0]
+    M.set_parents(fn)
+    args = M.arg_names(fn)
+    defs = {}
+    for a in ast.walk(fn):
+        if isinstance(a, ast.Assign) and len(a.targets) == 1 and isinstance(a.targets[0], ast.Name):
+            defs.setdefault(a.targets[0].id, []).append(a.value)
+        elif isinstance(a, ast.AnnAssign) and isinstance(a.target, ast.Name) and a.value is not None:
+            defs.setdefault(a.target.id, []).append(a.value)
+    single = dict((k, v[0]) for k, v in defs.items() if len(v) == 1)
+    # the condition under which a flattened index is computed at all
+    fl = [c for c in M.calls(fn) if M.call_name(c) == 'flatten_raw']
+    if not fl:
+        raise AnalysisError('get_valid_cell_index no longer calls flatten_raw')
+    conds = []
+    gi = M.enclosing(fl[0], (ast.If,))
+    while gi is not None:
+        conds.append(N.inline(gi.test, single))
+        gi = M.enclosing(gi, (ast.If,))
+    links = []
+
+    def collect(e):
+        if isinstance(e, ast.BoolOp) and isinstance(e.op, ast.And):
+            for v in e.values:
+                collect(v)
+        elif isinstance(e, ast.Compare):
+            left = e.left
+            for op, right in zip(e.ops, e.comparators):
+                links.append(ast.Compare(left=left, ops=[op], comparators=[right]))
+                left = right
+    for c in conds:
+        collect(c)
+    for k, ax in enumerate(args[:3]):
+        lower = any(N.same(l, '%s > -1' % ax, '%s >= 0' % ax) for l in links)
+        upper = any(N.same(l, '%s < %s[%d]' % (ax, args[3], k), '%s <= %s[%d] - 1' % (ax, args[3], k)) for l in links)
+        chk.decide(lower and upper, 'stencil-covers-cutoff', 'get_valid_cell_index:%s-in-range' % ax, node=fn, file=rel, func='get_valid_cell_index',
+                   detail_bad='the flattened index is computed without requiring 0 <= %s < %s[%d] (tests found: %s): an index one past either end aliases a cell of the '
+                              'neighbouring row, which is then visited twice' % (ax, args[3], k, [compact(l) for l in links]),
+                   detail_ok='0 <= %s < %s[%d]' % (ax, args[3], k))
+
+
 def rule_octree(chk):
     """tree searches prune a node only when neither the query's radius nor the largest source radius in the node reaches it"""
     from verif_static import symb as S
@@ -1474,6 +1562,8 @@ def main(chk):
     rule_octree(chk)
     rule_subcell_radius(chk)
     rule_bounds(chk)
+    rule_bins_all(chk)
+    rule_valid_cell(chk)
     rule_narrowing(chk)
     rule_cxx_headers(chk)
     # only valid indices, no duplicates: a sort of the result must touch exactly the slice this query appended (rule shared with C05)
